@@ -277,7 +277,10 @@ fn build_s(h: &[TOp], scheme: usize) -> Built {
         let rejected = matches!(exp, Exp::Reject(_));
         insts.push((w, exp));
         if rejected {
-            break; // parsing ends at the first malformed instruction
+            // parsing ends at the first malformed instruction; two further well-formed instructions follow it in the
+            // binary (never delivered): a literal that reaches across the declared extent would swallow their words
+            words.extend([(1 << 16) | op("Nop"), (1 << 16) | op("Nop")]);
+            break;
         }
     }
     Built { words, insts, map, enabled }
